@@ -34,6 +34,10 @@ def c05_functions():
     fs += class_methods(XPathContext, exclude={'__init__', 'schema', 'get_root', '__copy__'})
     fs += [f for f in vars(xpath_selectors).values() if callable(f) and getattr(f, '__module__', '') == xpath_selectors.__name__
            and hasattr(f, '__code__')]
+    # module-level helpers that evaluation hands caller-owned objects (elements, maps, items) to
+    from elementpath import serialization, compare, etree
+    for mod in (serialization, compare, etree):
+        fs += [f for f in vars(mod).values() if callable(f) and getattr(f, '__module__', '') == mod.__name__ and hasattr(f, '__code__')]
     seen, out = set(), []
     for f in fs:
         if id(f.__code__) not in seen:
@@ -74,7 +78,10 @@ def bounded_purity(tier, seed):
     exprs = ['//b', '/a/b[@x="2"]', 'count(//*)', '//b/@x', 'for $i in (1,2) return $i * $v', 'some $i in (1,2) satisfies $i = $v',
              'let $x := 1 return ($x, $v)', '(function($v){$v + 1}(5), $v)', 'string-join(for $b in //b return string($b/@x), ",")',
              '$d + xs:dayTimeDuration("PT1H")', '$d lt $d2', 'map:put($m, "k", 2)?k', 'array:append($arr, 9)?*', '$arr?*', '$m?k',
-             'every $i in (1, 2), $j in (3, 4) satisfies $i lt $j', '//e | //p:e', 'reverse(//b)/@x', '$v']
+             'every $i in (1, 2), $j in (3, 4) satisfies $i lt $j', '//e | //p:e', 'reverse(//b)/@x', '$v',
+             'serialize(/a/b[1])', 'serialize(/a/b[1], map{"standalone": true()})', 'serialize(/a/b[1], map{"method": "json"})', 'string(/a/b[1])', 'data(/a/b[1])',
+             'let $f := function($a, $b) { $a - $b }, $g := $f(1, ?), $h := $f(?, 10) return ($g(5), $h(5), $f(3, 1))',
+             'let $m2 := map:merge(($m, map{"k": 5}), map{"duplicates": "combine"}) return ($m?k, $m2?k)', 'array:sort($arr)?*', 'map:remove($m, "k")?k']
     fails, n, seen = [], 0, set()
     for di, doc in enumerate(docs):
         for expr in exprs:
